@@ -332,7 +332,7 @@ func init() {
 		Exec:      c08Exec,
 		Judge:     c08Judge,
 		Describe:  c08Describe,
-		QuickN:    5000,
+		QuickN:    5000*2,
 		ThoroughN: 300000,
 	})
 }
